@@ -6,6 +6,7 @@ CONSTANTS
   Origins = {1, 2, 3}
   Tables = {0, 1, 2, 3}
   Triples = TRUE
+  MaxArr = 4
   Full = TRUE
 INVARIANT AllRotations
 ACTION_CONSTRAINT Emit
